@@ -919,7 +919,22 @@ struct FactVisitor : RecursiveASTVisitor<FactVisitor> {
           } else if (auto *RS = dyn_cast<ReturnStmt>(St)) {
             s += "{\"ret\":" + (RS->getRetValue() ? sx.ex(RS->getRetValue(), 10) : std::string("null")) + ",\"l\":" + std::to_string(X.line(St->getBeginLoc())) + "}";
           } else {
-            s += "{\"x\":" + sx.ex(cast<Expr>(St), 10) + ",\"l\":" + std::to_string(X.line(cast<Expr>(St)->getExprLoc())) + "}";
+            s += "{\"x\":" + sx.ex(cast<Expr>(St), 10) + ",\"l\":" + std::to_string(X.line(cast<Expr>(St)->getExprLoc()));
+            if (isa<ArraySubscriptExpr>(St)) {
+              // context of the element access: address taken (&a[i]) or stored to (a[i] = v)
+              const Stmt *Cur2 = St;
+              for (int up = 0; up < 3; up++) {
+                auto Ps = X.C.getParents(*Cur2);
+                if (Ps.empty()) break;
+                const Stmt *P = Ps[0].get<Stmt>();
+                if (!P) break;
+                if (auto *UO = dyn_cast<UnaryOperator>(P)) { if (UO->getOpcode() == UO_AddrOf) s += ",\"addr\":1"; break; }
+                if (auto *BO = dyn_cast<BinaryOperator>(P)) { if (BO->isAssignmentOp() && BO->getLHS()->IgnoreParenImpCasts() == cast<Expr>(Cur2)->IgnoreParenImpCasts()) s += ",\"store\":1"; break; }
+                if (isa<ParenExpr>(P)) { Cur2 = P; continue; }
+                break;
+              }
+            }
+            s += "}";
           }
         } else if (auto AD = El.getAs<CFGAutomaticObjDtor>()) {
           if (!f3) s += ",";
